@@ -206,7 +206,7 @@ func genCR(w *bufio.Writer, thorough bool, r *Rng) {
 		bs := 4 << 20
 		if r.Intn(3) != 0 {
 			bs = r.Pick(bss)
-			opts = fmt.Sprintf("bs=%d,bc=%d,cc=%d,lvl=0", bs, r.Intn(2), r.Intn(2))
+			opts = fmt.Sprintf("bs=%d,bc=%d,cc=%d,lvl=0,sz=%d", bs, r.Intn(2), r.Intn(2), r.Pick([]int{0, 0, 77, 123456}))
 		}
 		sz := r.Pick([]int{0, 10, 3000, 70000, 200000})
 		fail := -1
